@@ -51,8 +51,8 @@ def make_judge(ctx, count=True):
         for i, why, kf in bad:
             if why.get("diverges") and count:
                 ctx.divergences += 1
-                vlib.log("DIVERGENCE property=C17 record=%d option-sets=%s: real features differ from the Model's Conv "
-                         "(no Judge objects to the difference itself)" % (i, json.dumps(why["diverges"])[:200]))
+                vlib.log("DIVERGENCE property=C17 record=%d option-sets=%s: real features differ from both variants of the "
+                         "Model (ConvV pinned / fixed); not a verdict" % (i, json.dumps(why["diverges"])[:200]))
                 if len(ctx.extra.setdefault("divergence_samples", [])) < 3:
                     ctx.extra["divergence_samples"].append({"case": rs[i]["case"], "option_sets": why["diverges"]})
             if why.get("fails"):
@@ -113,19 +113,22 @@ def run(ctx):
             if ns > mc_sample:
                 continue
         mc_cases.append(c)
-    mc_scratch = os.path.join(ctx.scratch, "mc")
-    os.makedirs(mc_scratch)
-    cases_file = os.path.join(mc_scratch, "cases.ndjson")
-    with open(cases_file, "w") as f:
-        for c in mc_cases:
-            f.write(json.dumps(c, separators=(",", ":")) + "\n")
     mc_cfg = "GeoJsonMC_%s.cfg" % tier
-    # vlib admits TLC runs through a machine-wide slot budget (one slot per worker, all or nothing): a moderate
-    # worker count gets admitted sooner when other checks run side by side
-    mc_workers = max(2, min(4 if ctx.quick() else 6, vlib.NCPU // 2))
+    # vlib admits TLC runs through a machine-wide slot budget (one slot per worker, all or nothing), so a run with
+    # many workers can wait a long time when other checks run side by side: the cases are dealt over a few
+    # independent TLC runs with two workers each instead.
+    mc_parts = 2 if ctx.quick() else 4
     ctx.extra["model_checked_cases"] = len(mc_cases)
-    mc = Bg(lambda: vlib.tlc("GeoJsonMC", mc_cfg, mc_scratch, env={"CASES": cases_file},
-                             workers=mc_workers, timeout=2400, heap="4g"))
+
+    def start_mc(k):
+        sc = os.path.join(ctx.scratch, "mc%d" % k)
+        os.makedirs(sc)
+        cf = os.path.join(sc, "cases.ndjson")
+        with open(cf, "w") as f:
+            for c in mc_cases[k::mc_parts]:
+                f.write(json.dumps(c, separators=(",", ":")) + "\n")
+        return Bg(lambda: vlib.tlc("GeoJsonMC", mc_cfg, sc, env={"CASES": cf}, workers=2, timeout=2400, heap="3g"))
+    mcs = [start_mc(k) for k in range(mc_parts)]
 
     build.get()
     for c in cases:
@@ -161,14 +164,16 @@ def run(ctx):
         del recs
 
     t1 = time.time()
-    r = mc.get()
-    stage["mc_wait_s"], stage["mc_s"] = round(time.time() - t1, 1), round(r.wall, 1)
-    stage["mc_thread"] = [round(mc.t_start - ctx.t0, 1), round(mc.t_end - ctx.t0, 1)]
+    stage["mc_s"] = []
+    for k, mc in enumerate(mcs):
+        r = mc.get()
+        account(ctx, "GeoJsonMC", "%s part %d/%d" % (mc_cfg, k + 1, mc_parts), r)
+        stage["mc_s"].append([round(mc.t_start - ctx.t0, 1), round(mc.t_end - ctx.t0, 1), round(r.wall, 1)])
+        if not r.ok():
+            raise vlib.Infra("model check GeoJsonMC/%s did not pass (rc=%s, %s):\n%s" % (mc_cfg, r.rc, r.violation, r.out[-5000:]))
+    stage["mc_wait_s"] = round(time.time() - t1, 1)
     ctx.extra["stage_wall"] = stage
     vlib.log("C17 stages:", stage)
-    account(ctx, "GeoJsonMC", mc_cfg, r)
-    if not r.ok():
-        raise vlib.Infra("model check GeoJsonMC/%s did not pass (rc=%s, %s):\n%s" % (mc_cfg, r.rc, r.violation, r.out[-5000:]))
     a = area.get()
     account(ctx, "GeoJsonArea", "GeoJsonArea.cfg", a)
     if not a.ok() or "AREA-RULES-IDENTICAL" not in a.out:
